@@ -201,6 +201,20 @@ class Sched(object):
             vi = op[1]
             if vi < len(self.views):
                 self.views[vi] = None
+        elif kind == 'CLEARCACHE':
+            # the public cache reset of the caching views (sort, cache());
+            # depth 1 addresses the view below the top one
+            vi = op[1]
+            if vi < len(self.views) and self.views[vi] is not None:
+                v = self.views[vi]
+                if len(op) > 2 and op[2]:
+                    for a in ('inner', 'source', 'table'):
+                        if hasattr(getattr(v, a, None), 'clearcache'):
+                            v = getattr(v, a)
+                            break
+                if hasattr(v, 'clearcache'):
+                    v.clearcache()
+                    self.probe('clearcache-called')
         elif kind == 'FRESH':
             vi = op[1]
             if vi < len(self.views) and self.views[vi] is not None:
